@@ -55,6 +55,9 @@ def gen_runs(rng, n, tier):
 
 
 def roots_of(case):
+    if case.get("input_dirs"):
+        # (directories named explicitly in directory mode: the input directory of each is its parent)
+        return sorted(case["input_dirs"])
     return sorted(set(case["roots"]) | {os.path.dirname(e) for e in case["explicit"]})
 
 
@@ -96,8 +99,15 @@ def oracle_runs(case, obs):
         ino_path_before = {v[1]: p for p, v in before.items()}
         for op in obs["ops"]:
             pass
+        def is_dir_link(path, val, tree):
+            # a symbolic link to a directory counts as a directory for the tool (is_dir() follows links): when such a
+            # link is designated in directory mode, renaming it is renaming the designated entry
+            if val is None or val[0] != "link":
+                return False
+            target = os.path.normpath(os.path.join(os.path.dirname(path), val[1]))
+            return target in tree and tree[target][0] is None
         for p, (val, ino) in after.items():
-            if val is not None:  # a non-directory
+            if val is not None and not any(is_dir_link(q, v, before) for q, (v, i2) in before.items() if i2 == ino):  # a non-directory
                 old = ino_path_before.get(ino)
                 if old is None:
                     return f"non-directory {p!r} appeared in directory mode"
